@@ -442,25 +442,27 @@ func InheritTags(w *World, sc Scenario) {
 	if !some {
 		return
 	}
+	// the world's types carry the gengo:* tags of the declaration (LoadWorld); the model decides "enabled" from the
+	// merged tags [globals; package doc; declaration] and the case files pass no globals / package tags of their own, so
+	// the inherited tags are merged in here, by the documented precedence (declaration over package over global)
 	for pi := range w.Pkgs {
 		for ti := range w.Pkgs[pi].Types {
 			t := &w.Pkgs[pi].Types[ti]
-			have := map[string]bool{}
-			for _, g := range t.Enabled {
-				have[g] = true
-			}
-			var en []string
-			for _, g := range sc.Gens {
-				_, global := sc.Globals["gengo:"+g.Name]
-				inDoc := false
-				for _, d := range docTags[w.Pkgs[pi].Dir] {
-					inDoc = inDoc || d == g.Name
-				}
-				if have[g.Name] || global || inDoc {
-					en = append(en, g.Name)
+			merged := map[string][]string{}
+			for k, v := range sc.Globals {
+				if strings.HasPrefix(k, "gengo:") {
+					merged[k] = append([]string{}, v...)
 				}
 			}
-			t.Enabled = en
+			for _, d := range docTags[w.Pkgs[pi].Dir] {
+				merged["gengo:"+d] = []string{""}
+			}
+			for k, v := range t.Tags {
+				merged[k] = v
+			}
+			if len(merged) > 0 {
+				t.Tags = merged
+			}
 		}
 	}
 }
